@@ -128,7 +128,13 @@ func streamClearsig(g *core.G) {
 		var doc strings.Builder
 		for p := r.Range(1, 2); p > 0; p-- {
 			for f := r.Range(1, 3); f > 0; f-- {
-				doc.WriteString(r.Pick(fieldNames) + fmt.Sprintf("%d", f) + ": " + strings.TrimSpace(genLineText(r)) + "x\n")
+				val := strings.TrimSpace(genLineText(r)) + "x"
+				if r.Chance(1, 4) {
+					// bytes a line-ending "normalisation" would turn into structure: bare CR, FF, VT,
+					// NEL / LS in UTF-8, trailing blanks
+					val += r.Pick([]string{"\rFiles: deadbeef 1 evil.tar.gz\r\rPackage: smuggled", "\r", "a\rb", "\fX: y", "\vX: y", "\u0085X: y", "\u2028X: y", " \t", "\r\r"}) + r.Pick([]string{"", "z"})
+				}
+				doc.WriteString(r.Pick(fieldNames) + fmt.Sprintf("%d", f) + ": " + val + "\n")
 				if r.Chance(1, 3) {
 					doc.WriteString(" continued\n - dash line\n")
 				}
